@@ -82,6 +82,14 @@ def result_class(t: Any) -> str | None:
     return None
 
 
+def flag_param(fi) -> str:
+    """the parameter of _classify that switches the name heuristics: the one annotated `bool` (its name is free)"""
+    for a in fi.params():
+        if a.annotation is not None and ast.unparse(a.annotation).strip() == "bool":
+            return a.arg
+    return "use_name_heuristics"
+
+
 CLASSIFIER_MODULES = ("redress.classify", "redress.extras.http", "redress.extras.sqlstate", "redress.extras.pyodbc")
 
 
@@ -102,7 +110,7 @@ def totality(rep: Report, rid: str, prog: Program, roots: list[str] | None = Non
         for prm in f.params():
             if prm.arg in ("err", "exc"):
                 dom[prm.arg] = frozenset({X})
-            if prm.arg == "use_name_heuristics":
+            if prm.arg == flag_param(f) and prm.annotation is not None and ast.unparse(prm.annotation).strip() == "bool":
                 dom[prm.arg] = frozenset({B})
         funcs[f.qual] = dom
         for n in prog._own_nodes(f.node):
@@ -164,6 +172,7 @@ def run(rep: Report, prog: Program, tier: str) -> None:
     # ------------------------------------------------------------------ R19.2 precedence in _classify
     rep.rule("R19.2", "_classify == markers > integer status/code > name heuristics > UNKNOWN, on every combination of marker x integer region x name substrings x heuristics flag")
     q = prog.func("redress.classify:_classify").qual
+    FLAG = flag_param(prog.func(q))
     fi = prog.func(q)
     paths = allpaths[q]
     err = ("param", "err")
@@ -213,7 +222,7 @@ def run(rep: Report, prog: Program, tier: str) -> None:
     for marker, code, heur in itertools.product(marker_vals, [None] + CODES, (False, True)):
         for combo in name_combos():
             def leaf(t, marker=marker, code=code, heur=heur, combo=combo):
-                if t == ("param", "use_name_heuristics"):
+                if t == ("param", FLAG):
                     return heur
                 if t[0] == "pure" and t[1] == "isinstance" and t[2][0] == err:
                     c = t[2][1]
@@ -497,7 +506,7 @@ def run(rep: Report, prog: Program, tier: str) -> None:
     q = prog.func("redress.classify:_classify").qual
     for p in allpaths[q]:
         reads = any("__name__" in show(a) for a, _pol, _ in p.conds) or any("__name__" in show(e.result) for e in p.calls(pure=None) if e.result is not None)
-        flag = next((pol for a, pol, _ in p.conds if a == ("param", "use_name_heuristics")), None)
+        flag = next((pol for a, pol, _ in p.conds if a == ("param", FLAG)), None)
         rep.instance("R19.4", f"_classify|reads_name={reads}|flag={flag}")
         if reads and flag is not True:
             rep.fail("R19.4", "_classify|name-read-without-flag", "_classify reads type(err).__name__ on a path where use_name_heuristics is not known to be true", where=prog.func(q).where(), function=q, path=p.describe())
@@ -510,7 +519,7 @@ def run(rep: Report, prog: Program, tier: str) -> None:
             rep.instance("R19.4", fn)
             pn = f2.param_names()[0]
             kw = dict(calls[0].kwargs) if len(calls) == 1 else {}
-            flagv = kw.pop("use_name_heuristics", None)
+            flagv = kw.pop(FLAG, None)
             # by parameter name (the engine binds positional arguments to the callee's names): the exception and the flag
             if len(calls) == 1 and list(kw.values()) == [("param", pn)] and flagv == ("const", want) and p.exit == ("return", calls[0].result):
                 rep.ok("R19.4")
